@@ -110,7 +110,7 @@ func init() {
 	})
 
 	register(&Rule{
-		ID: "C09.R2", Props: []string{"C09", "C10", "C16", "C05", "C15", "C04", "C03"}, Min: 4,
+		ID: "C09.R2", Props: []string{"C09", "C10", "C16", "C05", "C15", "C04", "C03", "C01"}, Min: 4,
 		Doc: "shared parsed templates are read-only: values loaded from long-lived storage of DOM nodes / cached front-matter (cache entry fields, package-level node caches), and freshly parsed DOM from the point where it is published into that storage, are never written through — not by a field/element store, a map update, a mutating x/net/html method, nor inside any module function they are passed to; only private deep copies are modified",
 		Run: func(p *Prog, c *Ctx) {
 			t := newROTaint(p)
